@@ -38,6 +38,7 @@ var registry = map[string]entry{
 	"C30": {"exploration", props.C30},
 	"C31": {"exploration", props.C31},
 	"C32": {"exploration", props.C32},
+	"C33": {"exploration", props.C33},
 	"C36": {"exploration", props.C36},
 	"C37": {"exploration", props.C37},
 	"C28": {"exploration", props.C28},
